@@ -53,6 +53,7 @@ Inner == {Fill(tp, C) : tp \in {<<op, "a">> : op \in BinOps} \cup {<<"neg", "a">
          \cup {[n |-> "fndef", ps |-> <<>>, body |-> C], [n |-> "fndef", ps |-> <<>>, body |-> [n |-> "add", a |-> C, b |-> One]]}
          \cup {C, Num("1", "50"), Num("0", "5"), [n |-> "str", s |-> "s t"], [n |-> "bool", bv |-> TRUE], [n |-> "null"],
                [n |-> "at", s |-> "2021-01-01"],
+               [n |-> "instof", a |-> C, ty |-> [t |-> "named", name |-> "tX"]],       \* a type that is not built in: its name ends where the next token begins
                [n |-> "in", a |-> C, b |-> [n |-> "range", lo |-> One, lc |-> TRUE, hi |-> QN("b"), hc |-> FALSE]],
                [n |-> "in", a |-> C, b |-> [n |-> "utlt", a |-> Num("5", "")]],
                [n |-> "in", a |-> C, b |-> [n |-> "elist", items |-> <<One, [n |-> "utge", a |-> QN("b")]>>]]}
